@@ -380,7 +380,11 @@ func (w *world) compile(kind string, i int) compiled {
 			func(d dump, _ thor.Bytes32, _ int) (int, int) { setU(d, addrU1, k, v); return 1, 0 }}
 	case "storeval":
 		return compiled{tx.NewClause(&addrU1).WithValue(val).WithData(sim.UCall(sim.OpStore, word(k), word(v))),
-			func(d dump, _ thor.Bytes32, _ int) (int, int) { setU(d, addrU1, k, v); move(d, O, addrU1, val); return 1, 1 }}
+			func(d dump, _ thor.Bytes32, _ int) (int, int) {
+				setU(d, addrU1, k, v)
+				move(d, O, addrU1, val)
+				return 1, 1
+			}}
 	case "nest", "nestok", "nestinv":
 		inner := map[string]int{"nest": sim.OpRevert, "nestok": sim.OpStore, "nestinv": sim.OpInvalid}[kind]
 		return compiled{tx.NewClause(&addrU1).WithData(sim.UCall(sim.OpNest, word(k), word(v), sim.AddrWord(addrU2), word(int64(inner)))),
@@ -722,7 +726,7 @@ func (w *world) run(sc *scenario, rng *rand.Rand) (res result) {
 	ex := exempt{
 		"E:" + akey(receipt.GasPayer): true,
 		"E:" + akey(w.B()):            true,
-		"S:" + akey(builtin.Energy.Address) + ":" + skey(thor.Blake2b([]byte("total-add-sub"))):                                    true,
+		"S:" + akey(builtin.Energy.Address) + ":" + skey(thor.Blake2b([]byte("total-add-sub"))):                           true,
 		"S:" + akey(builtin.Prototype.Address) + ":" + skey(thor.Blake2b(addrU1.Bytes(), origin.Bytes(), []byte("user"))): true,
 	}
 	wantAll := preDump.clone()
@@ -898,8 +902,12 @@ func packerRuns(seed int64, evs *[]trace.Ev) (runs int) {
 			}
 			return t
 		}
-		store := func(i int64) *tx.Clause { return tx.NewClause(&addrU1).WithData(sim.UCall(sim.OpStore, word(i), word(i+1))) }
-		loop := func(i int64) *tx.Clause { return tx.NewClause(&addrU1).WithData(sim.UCall(sim.OpLoop, word(i), word(i+1))) }
+		store := func(i int64) *tx.Clause {
+			return tx.NewClause(&addrU1).WithData(sim.UCall(sim.OpStore, word(i), word(i+1)))
+		}
+		loop := func(i int64) *tx.Clause {
+			return tx.NewClause(&addrU1).WithData(sim.UCall(sim.OpLoop, word(i), word(i+1)))
+		}
 		parent := g.Repo.BestBlockSummary()
 		for round := 0; round < 4; round++ {
 			good1 := mk(n.Devs[2].PrivateKey, 100_000, store(int64(round*10+1)), "")
